@@ -55,7 +55,7 @@ func fdesc(f field) string {
 // valueRefOrValue tells the fields flipped bit by bit in the stores that are not fully enumerated.
 func valueRefOrValue(class string) bool {
 	switch class {
-	case "e.vlen", "e.voff", "val.plain", "val.embedded", "val.clen", "val.cdata", "emb.prefix", "hdr.version", "hdr.nentries", "e.klen", "e.kvmdlen", "hdr.txmdlen":
+	case "e.vlen", "e.voff", "val.plain", "val.embedded", "val.clen", "val.cdata", "emb.prefix":
 		return true
 	}
 	return false
@@ -108,8 +108,12 @@ func (m *gen) fieldTargeted() {
 				max = ^uint64(0)
 			}
 			vals := map[uint64]string{0: "0", 1: "1", max: "max", max >> 1: "max/2", cur + 1: "+1", cur - 1: "-1", cur + 2: "+2", cur * 2: "x2", cur | 1<<(8*uint(n)-1): "top-bit"}
+			sib := 0
 			for _, o := range byClass[f.Class] {
-				if v := m.num(o); v != cur {
+				if v := m.num(o); v != cur && sib < 3 {
+					if _, dup := vals[v]; !dup {
+						sib++
+					}
 					vals[v] = fmt.Sprintf("value of %s", fdesc(o))
 				}
 			}
